@@ -279,9 +279,37 @@ def r6(cx):
             cx.violation(pk, "deterministic-target-path", "backfill_chunk_path depends on %s: a resumed back-fill writes its outputs under new names and the first attempt's files stay (rows twice)" % impure[0], [pb.j["span"]])
         else:
             cx.passed(pk, "deterministic-target-path", [pb.j["span"]])
+        # every parameter (target shard, source path, batch index, side) reaches the returned name: dropping one makes two outputs share a name
+        ro = M.provenance(pb, {"l": 0}, adapters=M.PURE_ADAPTERS | {tt["callee"] for _, tt in pb.calls()})
+        used = {x[1] for x in ro if x[0] == "arg"}
+        nargs = pb.j.get("args") or 4
+        missing = [i for i in range(1, int(nargs) + 1) if i not in used]
+        if missing:
+            cx.violation(pk, "target-path-uses-every-parameter", "%s: parameter #%s of backfill_chunk_path does not reach the returned name" % (pb.j["span"], missing), [pb.j["span"]])
+        else:
+            cx.passed(pk, "target-path-uses-every-parameter", [pb.j["span"]])
     ck, b = cx.need_body(SP + "run_backfill_with_progress")
     ws = M.find_calls(b, lambda c: c == SP + "write_chunk_to_path")
     cx.floor("write_chunk_to_path calls in the back-fill", len(ws), 2, ck)
+    # ... and the path is named after the SOURCE chunk: an argument of every backfill_chunk_path call is that chunk's chunk_path. A position in a list that depends on
+    # what was already done (an ordinal over the pending chunks) names a different chunk on the resumed run and overwrites a finished chunk's outputs
+    pcs = M.find_calls(b, lambda c: c == pk)
+    if cx.floor("backfill_chunk_path calls in the back-fill", len(pcs), 2, ck):
+        for pc in pcs:
+            named = False
+            ordinal = []
+            for a in b.term(pc)["args"]:
+                o = M.operand_origins(b, a, at=(pc, M.T))
+                if any(".chunk_path" in x[2] for x in o if x[0] in ("call", "arg", "upvar")):
+                    named = True
+                if M.has_call(o, lambda c: c.endswith("Iterator::enumerate")) and any(M.has_call(M.operand_origins(b, b.term(e)["args"][0], at=(e, M.T)), lambda c: c.endswith("Iterator::filter") or c.endswith("Iterator::skip_while"))
+                                                                                       for e in M.find_calls(b, lambda c: c.endswith("Iterator::enumerate"))):
+                    ordinal.append(a)
+            if named and not ordinal:
+                cx.passed(ck, "target-path-names-the-source-chunk", [b.sp(pc)])
+            else:
+                cx.violation(ck, "target-path-names-the-source-chunk", "%s: an output of the back-fill is not named after its source chunk's path%s: on a resumed run the same name denotes another "
+                             "chunk, the finished chunk's output is overwritten and its rows are gone after the clean-up" % (b.sp(pc), " (it uses a position among the chunks still pending)" if ordinal else ""), [b.sp(pc)])
     marks = [bi for bi, t in b.calls() if t["callee"] == "std::collections::BTreeSet::<T, A>::insert"
              and any(".backfilled_chunks" in x[2] for x in M.operand_origins(b, t["args"][0], at=(bi, M.T)) if x[0] in ("arg", "upvar", "call"))]
     fails = set()
@@ -308,3 +336,16 @@ def r6(cx):
         cx.passed(ck, "fraction-republished-on-every-entry", [b.sp(u) for u in ups])
     from rules.C06 import _backfill_writer
     _backfill_writer(cx)
+
+
+@rule("C14", "R7", "the new shards partition the old shard's rows at the split point: the back-fill's row-partition and side-to-shard rules of C15 (R1: lower side exactly on ts < split, "
+      "whole-batch short-cuts only under max < split / split <= min; R4: lower side to new_shards[0], upper side to new_shards[1]), evaluated for this property")
+def r7(cx):
+    import importlib
+    m = importlib.import_module("rules.C15")
+    ib = len(cx.instances)
+    ob0, di0 = cx.obligations, cx.discharged
+    for f in ("r1", "r4"):
+        getattr(m, f)(cx)
+    cx.obligations = ob0 + len(cx.instances[ib:])
+    cx.discharged = di0 + len([i for i in cx.instances[ib:] if i["verdict"] == "holds"])
